@@ -16,6 +16,21 @@ EXPECT = [
      "want": "[s:63,s:66,s:656e64]", "why": "catch then finally run; the defer of the function runs at its exit"},
 ]
 
+# the error that reaches the host (or an outer try) after a catch block re-throws the caught value is the
+# error that was caught: same message, whatever raised it and however many handlers passed it on
+RETHROW = [("throw \"boom\"", "boom"), ("throw 42", "42"), ("throw [1, 2]", "[1 2]"), ("x = 1 % 0", "integer divide by zero"), ("hpanic(1)", "boom"),
+           ("func f() { throw \"inner\" }; f()", "inner"), ("func f() { defer func() { probe(1) }(); throw \"deep\" }; f()", "deep")]
+for _body, _msg in RETHROW:
+    EXPECT.append({"src": _body, "field": "msg", "want": _msg, "why": "an error that is not caught is returned to the host"})
+    EXPECT.append({"src": "try { %s } catch e { throw e }" % _body, "field": "msg", "want": _msg,
+                   "why": "a caught error thrown again from the catch block is the same error"})
+    EXPECT.append({"src": "try { try { %s } catch e { throw e } } catch f { throw f }" % _body, "field": "msg", "want": _msg,
+                   "why": "a caught error thrown again through two handlers is the same error"})
+    EXPECT.append({"src": "func g() { try { %s } catch e { throw e } finally { probe(9) } }; r = \"none\"; try { g() } catch q { throw q }; r" % _body, "field": "msg",
+                   "want": _msg, "why": "a re-thrown error crosses a function boundary and an outer handler unchanged"})
+EXPECT.append({"src": "e = nil; try { throw \"first\" } catch a { e = a }; r = 0; try { throw e } catch b { r = 1 }; r", "field": "result", "want": "i:1",
+               "why": "throwing a stored error value raises an error"})
+
 
 def run(tier, seed, replay=None):
     return interpcheck.run_interp_check(
